@@ -457,6 +457,8 @@ class G:
         need = max(0, mn - fixed)
         plen = need + 4 * (r.randrange(0, 3) if r.random() < 0.8 else r.randrange(0, 40))
         new = {"c": "new", "fam": fam, "ssrc": self.u32()}
+        if r.random() < 0.3:
+            new["some0"] = True          # this third-party writer reports "no padding" as Some(0)
         s = []
         if plen or r.random() < 0.5:
             s.append({"c": "payload", "v": self.bytes_(plen)})
